@@ -38,12 +38,13 @@ SCOPES = {
     "quick": dict(kc=[dict(R=1, MaxT=2, MaxLen=2, P=4, MaxK=3, MetricsUsed=["l1"]),
                       dict(R=2, MaxT=3, MaxLen=2, P=4, MaxK=3, MetricsUsed=["l1"]),
                       dict(R=3, MaxT=3, MaxLen=1, P=4, MaxK=3, MetricsUsed=["l2sq"])],
-                  ops=[dict(R=2, MaxN=4, MaxV=2), dict(R=3, MaxN=4, MaxV=2)]),
+                  ops=[dict(R=2, MinN=1, MaxN=4, NegV=2, MaxV=2), dict(R=3, MinN=1, MaxN=4, NegV=1, MaxV=2)]),
     "thorough": dict(kc=[dict(R=1, MaxT=2, MaxLen=2, P=4, MaxK=3, MetricsUsed=["l1"]),
                          dict(R=2, MaxT=3, MaxLen=2, P=5, MaxK=3, MetricsUsed=["l1", "l2sq"]),
                          dict(R=3, MaxT=4, MaxLen=2, P=4, MaxK=3, MetricsUsed=["l1"]),
                          dict(R=4, MaxT=4, MaxLen=1, P=5, MaxK=4, MetricsUsed=["l2sq"])],
-                     ops=[dict(R=2, MaxN=5, MaxV=2), dict(R=3, MaxN=5, MaxV=2), dict(R=4, MaxN=5, MaxV=2)]),
+                     ops=[dict(R=2, MinN=1, MaxN=5, NegV=2, MaxV=2), dict(R=3, MinN=1, MaxN=5, NegV=2, MaxV=2),
+                          dict(R=4, MinN=1, MaxN=5, NegV=1, MaxV=2)]),
 }
 
 
@@ -77,25 +78,41 @@ def _digest(v):
         return int(v), False
     if isinstance(v, (float, np.floating)):
         if np.isinf(v):
-            return 2000000000, True
+            return (2000000000 if v > 0 else -2000000000), True
         return int(round(float(v) * 1e6)), True
     b = repr(np.asarray(v, dtype=object).tolist() if not isinstance(v, np.ndarray) else v.tolist()).encode()
     return zlib.crc32(b) & 0x3fffffff, False
 
 
+def _num(v):
+    return isinstance(v, (int, float, np.integer, np.floating)) and not isinstance(v, (bool, np.bool_))
+
+
 def world_trace(world):
     """group the communicator log by epoch -> record for Trace_Collectives.tla"""
+    # an epoch whose numeric contributions / results mix ints and floats (an empty rank contributes the float 0.0
+    # of np.sum(np.array([])) next to the integer sums of the others) is projected with ONE scale for all of them
+    floaty = {}
+    for e in world.log:
+        vals = [e["contrib"]] + (list(e["result"]) if e["kind"] == "allgather" else [e["result"]])
+        if any(isinstance(v, (float, np.floating)) for v in vals):
+            floaty[e["epoch"]] = True
+
+    def dg(v, epoch):
+        if floaty.get(epoch) and _num(v):
+            return _digest(float(v))
+        return _digest(v)
     eps = {}
     for e in world.log:
         ep = eps.setdefault(e["epoch"], {"kind": e["kind"], "root": -1 if e["root"] is None else int(e["root"]),
                                          "op": e["op"] or "", "order": [int(x) for x in e["order"]],
                                          "contribs": [None] * world.size, "results": [None] * world.size,
                                          "scaled": False})
-        c, sc1 = _digest(e["contrib"])
+        c, sc1 = dg(e["contrib"], e["epoch"])
         if e["kind"] == "allgather":
-            r = [_digest(x)[0] for x in e["result"]]
+            r = [dg(x, e["epoch"])[0] for x in e["result"]]
         else:
-            r, sc2 = _digest(e["result"])
+            r, sc2 = dg(e["result"], e["epoch"])
             sc1 = sc1 or sc2
         ep["contribs"][e["rank"]] = c
         ep["results"][e["rank"]] = r
